@@ -193,7 +193,7 @@ func ruleCellEscape(c *eng.Ctx) {
 							leaks = append(leaks, fmt.Sprintf("%s at %s receives cell text with %s unescaped", cn, c.P.Pos(x.Pos()), missing(st)))
 						}
 					default:
-						if cal := x.Call.StaticCallee(); cal != nil && eng.InModule(cal) {
+						if cal := eng.StaticCallee(x); cal != nil && eng.InModule(cal) {
 							if es := escaperSummary(c.P, cal, cache); es != 0 {
 								push(x, st|es)
 								continue
@@ -274,7 +274,7 @@ func bounded(fn *ssa.Function, v ssa.Value, k int64, upper bool, at *ssa.BasicBl
 	// the value is computed by a helper of the module (level := adjustedLevel(…)): bounded when
 	// every value the helper returns is bounded at its return
 	if call, ok := v.(*ssa.Call); ok {
-		if h := call.Call.StaticCallee(); h != nil && h.Blocks != nil && eng.InModule(h) && h.Signature.Results().Len() == 1 {
+		if h := eng.StaticCallee(call); h != nil && h.Blocks != nil && eng.InModule(h) && h.Signature.Results().Len() == 1 {
 			rets := eng.Returns(h)
 			all := len(rets) > 0
 			for _, r := range rets {
@@ -291,7 +291,7 @@ func bounded(fn *ssa.Function, v ssa.Value, k int64, upper bool, at *ssa.BasicBl
 	// bounded at every return of the helper that does not return an error
 	if ex, ok := v.(*ssa.Extract); ok {
 		if call, ok := ex.Tuple.(*ssa.Call); ok {
-			if h := call.Call.StaticCallee(); h != nil && h.Blocks != nil && eng.InModule(h) {
+			if h := eng.StaticCallee(call); h != nil && h.Blocks != nil && eng.InModule(h) {
 				rets := eng.Returns(h)
 				all, n := true, 0
 				for _, r := range rets {
